@@ -370,7 +370,14 @@ def fold_module_sequence(repo, mod, name):
         poisoned = set()
         for st in mod.tree.body:
             try:
-                if isinstance(st, ast.Assign) and len(st.targets) == 1:
+                if isinstance(st, ast.AnnAssign) and st.value is not None and isinstance(st.target, ast.Name):
+                    try:
+                        local[st.target.id] = fold(st.value, env)
+                        poisoned.discard(st.target.id)
+                    except Unknown:
+                        local.pop(st.target.id, None)
+                        poisoned.add(st.target.id)
+                elif isinstance(st, ast.Assign) and len(st.targets) == 1:
                     t = st.targets[0]
                     if isinstance(t, ast.Name):
                         try:
